@@ -22,6 +22,8 @@ type RRc struct {
 	TTL   uint32 `json:"ttl"`
 	RData string `json:"rd"`           // hex of the uncompressed rdata
 	RFold string `json:"rf,omitempty"` // same with embedded compressible names lower-cased (when different)
+	// Names are the domain names inside the rdata of name-bearing types, exact spelling
+	Names []string `json:"names,omitempty"`
 }
 
 func (r RRc) key(withTTL bool, fold bool) string {
@@ -68,32 +70,40 @@ type Canon struct {
 	Trailing bool     `json:"-"`
 }
 
-func lowerRDataNames(rr dns.RR) dns.RR {
+func lowerRDataNames(rr dns.RR) (dns.RR, []string) {
 	c := dns.Copy(rr)
+	var names []string
+	low := func(p *string) {
+		names = append(names, *p)
+		*p = strings.ToLower(*p)
+	}
 	switch v := c.(type) {
 	case *dns.CNAME:
-		v.Target = strings.ToLower(v.Target)
+		low(&v.Target)
 	case *dns.NS:
-		v.Ns = strings.ToLower(v.Ns)
+		low(&v.Ns)
 	case *dns.PTR:
-		v.Ptr = strings.ToLower(v.Ptr)
+		low(&v.Ptr)
 	case *dns.MX:
-		v.Mx = strings.ToLower(v.Mx)
+		low(&v.Mx)
 	case *dns.SOA:
-		v.Ns = strings.ToLower(v.Ns)
-		v.Mbox = strings.ToLower(v.Mbox)
+		low(&v.Ns)
+		low(&v.Mbox)
 	case *dns.DNAME:
-		v.Target = strings.ToLower(v.Target)
+		low(&v.Target)
 	case *dns.SRV:
-		v.Target = strings.ToLower(v.Target)
+		low(&v.Target)
 	default:
-		return nil
+		return nil, nil
 	}
-	return c
+	return c, names
 }
 
+// packBuf is scratch for canonicalisation (the harness judges on one goroutine).
+var packBuf = make([]byte, 70000)
+
 func rdataHex(rr dns.RR) string {
-	buf := make([]byte, 70000)
+	buf := packBuf
 	h := *rr.Header()
 	// pack with a root owner so the rdata starts at a fixed offset
 	c := dns.Copy(rr)
@@ -112,7 +122,8 @@ func rdataHex(rr dns.RR) string {
 func canonRR(rr dns.RR) RRc {
 	h := rr.Header()
 	out := RRc{Owner: strings.ToLower(h.Name), Type: h.Rrtype, Class: h.Class, TTL: h.Ttl, RData: rdataHex(rr)}
-	if l := lowerRDataNames(rr); l != nil {
+	if l, names := lowerRDataNames(rr); l != nil {
+		out.Names = names
 		if f := rdataHex(l); f != out.RData {
 			out.RFold = f
 		}
@@ -135,7 +146,7 @@ func optData(o dns.EDNS0) string {
 	// pack a one-option OPT and cut the option payload out
 	opt := &dns.OPT{Hdr: dns.RR_Header{Name: ".", Rrtype: dns.TypeOPT}}
 	opt.Option = []dns.EDNS0{o}
-	buf := make([]byte, 70000)
+	buf := packBuf
 	off, err := dns.PackRR(opt, buf, 0, nil, false)
 	if err != nil || off < 15 {
 		return "packerr:" + o.String()
@@ -205,7 +216,10 @@ type Diff struct {
 	Field  string // stable short id (goes into the violation signature)
 	Detail string
 	TTLOne bool // a uniform off-by-one-second TTL difference and nothing else
-	Benign string
+	// Soft: the difference cannot change later state (later steps of the
+	// group stay comparable); Sig, when set, is the complete signature.
+	Soft bool
+	Sig  string
 }
 
 func multiset(rrs []RRc, withTTL, fold bool) map[string]int {
@@ -367,7 +381,16 @@ func compareCanon(a, b Canon) []Diff {
 			ttlDelta, ttlSeen = d.delta, true
 			ds = append(ds, Diff{Field: "ttl." + s.n, Detail: d.what})
 		case "rdata-name-case":
-			ds = append(ds, Diff{Field: "rdata-name-case." + s.n, Detail: d.what})
+			qname := ""
+			if len(a.QD) > 0 {
+				qname = a.QD[0][:strings.IndexByte(a.QD[0], '|')]
+			}
+			if why, ok := caseViaQuestion(s.x, s.y, qname); ok {
+				ds = append(ds, Diff{Field: "rdata-name-case", Soft: true, Sig: "rdata-name-case/via-question-pointer",
+					Detail: s.n + ": " + why})
+			} else {
+				add("rdata-name-case-unexplained."+s.n, d.what+"; "+why)
+			}
 		default:
 			add("section."+s.n, d.what)
 		}
@@ -382,7 +405,12 @@ func compareCanon(a, b Canon) []Diff {
 			add("edns.count", fmt.Sprintf("%d vs %d", x.Count, y.Count))
 		}
 		if !strings.EqualFold(x.Owner, y.Owner) {
-			add("edns.owner", fmt.Sprintf("%q vs %q", x.Owner, y.Owner))
+			if x.Owner == "." && y.Owner != "." {
+				ds = append(ds, Diff{Field: "edns.owner", Soft: true, Sig: "edns-owner/decoded-path-echoes-request-opt-owner",
+					Detail: fmt.Sprintf("reply OPT owner %q (byte-built OPT) vs %q (decoded path re-uses the request's OPT record)", x.Owner, y.Owner)})
+			} else {
+				add("edns.owner", fmt.Sprintf("%q vs %q", x.Owner, y.Owner))
+			}
 		}
 		if x.UDPSize != y.UDPSize {
 			add("edns.size", fmt.Sprintf("%d vs %d", x.UDPSize, y.UDPSize))
@@ -445,4 +473,98 @@ func firstOptDiff(a, b []string) string {
 		return "order"
 	}
 	return codes[0]
+}
+
+// caseViaQuestion decides whether the letter-case differences between the
+// rdata names of a (subject) and b (reference) are all explained by ONE
+// mechanism: the subject's name ends in a label-aligned suffix that is spelled
+// exactly like the same suffix of the question name the client sent (a
+// compression pointer into the question section whose spelling was echoed),
+// and is otherwise identical to the reference's name.
+func caseViaQuestion(a, b []RRc, qname string) (string, bool) {
+	group := func(rrs []RRc) map[string][]RRc {
+		m := map[string][]RRc{}
+		for _, r := range rrs {
+			k := r.key(true, true)
+			m[k] = append(m[k], r)
+		}
+		for _, v := range m {
+			sort.Slice(v, func(i, j int) bool { return v[i].RData < v[j].RData })
+		}
+		return m
+	}
+	ga, gb := group(a), group(b)
+	example := ""
+	for k, la := range ga {
+		lb := gb[k]
+		if len(la) != len(lb) {
+			return "multiset mismatch", false
+		}
+		// pair records whose exact rdata agrees first
+		used := make([]bool, len(lb))
+		var restA []RRc
+		for _, ra := range la {
+			found := false
+			for j, rb := range lb {
+				if !used[j] && rb.RData == ra.RData {
+					used[j], found = true, true
+					break
+				}
+			}
+			if !found {
+				restA = append(restA, ra)
+			}
+		}
+		var restB []RRc
+		for j, rb := range lb {
+			if !used[j] {
+				restB = append(restB, rb)
+			}
+		}
+		for i, ra := range restA {
+			rb := restB[i]
+			if len(ra.Names) != len(rb.Names) || len(ra.Names) == 0 {
+				return "no name-bearing rdata", false
+			}
+			for n := range ra.Names {
+				s, t := ra.Names[n], rb.Names[n]
+				if s == t {
+					continue
+				}
+				if !strings.EqualFold(s, t) || !explainedByQuestion(s, t, qname) {
+					return fmt.Sprintf("%q vs %q not explained by the question spelling %q", s, t, qname), false
+				}
+				if example == "" {
+					example = fmt.Sprintf("rdata name %q (wire path) vs %q (decoded path), client asked %q", s, t, qname)
+				}
+			}
+		}
+	}
+	return example, example != ""
+}
+
+func explainedByQuestion(s, t, qname string) bool {
+	if len(s) != len(t) {
+		return false
+	}
+	idx := []int{0}
+	for i := 0; i < len(s); i++ {
+		if s[i] == '\\' {
+			i++
+			continue
+		}
+		if s[i] == '.' && i+1 < len(s) {
+			idx = append(idx, i+1)
+		}
+	}
+	for _, k := range idx {
+		suf := s[k:]
+		if suf == "." || suf == "" {
+			continue
+		}
+		if (qname == suf || strings.HasSuffix(qname, "."+suf)) && s[:k] == t[:k] {
+			return true
+		}
+	}
+	return false
 }
